@@ -79,7 +79,6 @@ _CATEGORY_TABLES = (
     "hasjrel",
     "hasjump",
     "haslocal",
-    "hasnargs",
 )
 
 
